@@ -324,7 +324,7 @@ int main(void)
                 do_unmap((int)x, "all", 0, "cli");
                 if (!got && acquire_get_state(rt) != DeviceState_Running) break;
                 if (++guard > 20000) { printf("A drain GIVEUP\n"); break; }
-                vs_point("cli.drain");
+                clock_sleep_ms(0, 1.0f); /* a polling client sleeps between polls (and so does not starve the workers under priority scheduling) */
             }
         } else if (!strncmp(l, "state", 5)) {
             printf("A state -> %s\n", state_name(acquire_get_state(rt)));
